@@ -825,59 +825,60 @@ def _stub_replace_pins(case: dict, root: str, diff_at: str) -> set[str]:
     return pins
 
 
-def classify_order_dependence(case: dict, root: str, request, base: dict, other: dict, other_k: int, search) -> list[str]:  # noqa: ANN001
-    """Counterfactual predicates: the dependence disappears when exactly the directories named by the mechanism(s) are
-    listed in sorted order while every other listing stays permuted.  Returns the finding ids that together explain the
-    difference, or [] when something is left unexplained."""
-    found: list[str] = []
+def _dotted_pyi_pins(case: dict, root: str, diff_at: str) -> set[str]:
+    """Directories holding a stub x.<more>.pyi when the difference lies at / below module x of that directory."""
     pins: set[str] = set()
-    current = other
-    # C14-pth-listing-order: >= 2 .pth files in one directory
+    for f in case["files"]:
+        b = os.path.basename(f)
+        if b.endswith(".pyi") and "." in b[:-4] and not b.startswith("."):
+            chain = os.path.dirname(f).split("/")[2:] + [b.split(".", 1)[0]]
+            if (diff_at + ".").startswith("$" + "".join(f".members.{c}" for c in chain) + "."):
+                pins.add(os.path.join(root, os.path.dirname(f)))
+    return pins
+
+
+def _pth_pins(case: dict, root: str, diff_at: str) -> set[str]:  # noqa: ARG001
     by_dir: dict[str, int] = {}
     for f in case["files"]:
         if f.endswith(".pth"):
             by_dir[os.path.dirname(f)] = by_dir.get(os.path.dirname(f), 0) + 1
-    pth_dirs = {os.path.join(root, d) for d, n in by_dir.items() if n >= 2}
-    if pth_dirs:
-        again = observe(case, root, other_k, request, search, pin_dirs=sorted(pth_dirs))
-        if same(again, base):
-            return ["C14-pth-listing-order"]
-        if not same(again, current):
-            found.append("C14-pth-listing-order")       # explains a part of the difference
-            pins |= pth_dirs
-            current = again
-    # C14-dotted-pyi-name-truncated: x.<more>.pyi competes with the other providers of x; the difference lies at / below x
-    if current["outcome"] == base["outcome"]:
-        at = describe_diff(base, current)["at"]
-        dpins = set()
-        for f in case["files"]:
-            b = os.path.basename(f)
-            if b.endswith(".pyi") and "." in b[:-4] and not b.startswith("."):
-                chain = os.path.dirname(f).split("/")[2:] + [b.split(".", 1)[0]]
-                if (at + ".").startswith("$" + "".join(f".members.{c}" for c in chain) + "."):
-                    dpins.add(os.path.join(root, os.path.dirname(f)))
-        if dpins:
-            again = observe(case, root, other_k, request, search, pin_dirs=sorted(pins | dpins))
-            if same(again, base):
-                return found + ["C14-dotted-pyi-name-truncated"]
-            if not same(again, current):
-                found.append("C14-dotted-pyi-name-truncated")
-                pins |= dpins
-                current = again
-    # C14-stubs-merged-then-replaced
-    for _round in range(4):
-        if current["outcome"] != base["outcome"]:
-            return []
-        more = _stub_replace_pins(case, root, describe_diff(base, current)["at"]) - pins
-        if not more:
-            return []
-        pins |= more
-        current = observe(case, root, other_k, request, search, pin_dirs=sorted(pins))
-        if "C14-stubs-merged-then-replaced" not in found:
-            found.append("C14-stubs-merged-then-replaced")
+    return {os.path.join(root, d) for d, n in by_dir.items() if n >= 2}
+
+
+ORDER_MECHANISMS = [("C14-pth-listing-order", _pth_pins), ("C14-dotted-pyi-name-truncated", _dotted_pyi_pins),
+                    ("C14-stubs-merged-then-replaced", _stub_replace_pins)]
+
+
+def classify_order_dependence(case: dict, root: str, request, base: dict, other: dict, other_k: int, search) -> list[str]:  # noqa: ANN001
+    """Counterfactual predicates: the dependence disappears when exactly the directories named by the mechanism(s) are
+    listed in sorted order while every other listing stays permuted.  Each round looks at the first remaining difference,
+    asks every mechanism for the directories it blames for *that* difference, pins them, and re-observes; a mechanism
+    counts only if pinning its directories changes the observation.  Returns the finding ids that together explain the
+    difference, or [] when something is left unexplained."""
+    found: list[str] = []
+    pins: set[str] = set()
+    current = other
+    for _round in range(8):
         if same(current, base):
             return found
-    return []
+        at = "outcome" if current["outcome"] != base["outcome"] else describe_diff(base, current)["at"]
+        progressed = False
+        for fid, pins_of in ORDER_MECHANISMS:
+            more = pins_of(case, root, at) - pins
+            if not more:
+                continue
+            again = observe(case, root, other_k, request, search, pin_dirs=sorted(pins | more))
+            if same(again, current):
+                continue
+            pins |= more
+            current = again
+            if fid not in found:
+                found.append(fid)
+            progressed = True
+            break
+        if not progressed:
+            return []
+    return found if same(current, base) else []
 
 
 # ------------------------------------------------------------------------------------------
